@@ -37,7 +37,7 @@ ASSUMPTIONS = [
 ]
 REACH = {t: ["versions_11", "all_256_message_types", "rssi_min", "rssi_max", "empty_payload", "max_payload",
              "unicast", "multicast", "broadcast", "ignored_type", "join", "leave", "deny", "v14_layout",
-             "pre_v14_layout"] for t in ("quick", "thorough")}
+             "pre_v14_layout", "versions_mixed_in_one_process"] for t in ("quick", "thorough")}
 SHARD_TIMEOUT = {"quick": 900, "thorough": 3600}
 ID_INCOMING = 0x45
 ID_TCJOIN = 0x24
@@ -61,41 +61,54 @@ def enc_tcjoin(V, seq, f):
 
 
 def shards(tier, seed):
-    return [{"version": v, "n": 1500 if tier == "quick" else 40000, "seed": seed} for v in range(4, 15)]
+    out = [{"versions": [v], "n": 1500 if tier == "quick" else 40000, "seed": seed} for v in range(4, 15)]
+    # several protocol versions alive in one process, callbacks alternating between them (state
+    # shared between handler classes - caches, tables filled in lazily - shows only here)
+    mixes = [[13, 14], [14, 4], [8, 14, 7], [14, 13, 12, 4]] if tier == "quick" else \
+        [[a, 14] for a in range(4, 14)] + [[14, a] for a in range(4, 14)] + [[4, 8, 14], [14, 9, 5], list(range(14, 3, -1)), list(range(4, 15))]
+    for m in mixes:
+        out.append({"versions": m, "n": (800 if tier == "quick" else 8000), "seed": seed + 1})
+    return out
 
 
 def run_shard(desc) -> Acc:
     logmode.apply(desc)
     acc = Acc()
     install_status_contract(acc)
-    V = desc["version"]
-    rnd = random.Random(desc["seed"] * 977 + V)
-    acc.reach["version:%d" % V] += 1
+    versions = desc.get("versions") or [desc["version"]]
+    rnd = random.Random(desc["seed"] * 977 + versions[0] + 31 * len(versions))
+    if len(versions) == 1:
+        acc.reach["version:%d" % versions[0]] += 1
+    else:
+        acc.hit("versions_mixed_in_one_process")
 
     async def main(loop):
-        ap = await appharness.started_app(loop, V, acc, "C13")
-        app, ncp = ap.app, ap.ncp
-        own_nwk = int(app.state.node_info.nwk)
-        rec = []
-        app.packet_received = lambda pkt: rec.append(("packet", pkt))
-        app.handle_join = lambda nwk, ieee, parent, *a, **k: rec.append(("join", int(nwk), bytes(ieee.serialize()), int(parent)))
-        app.handle_leave = lambda nwk, ieee, *a, **k: rec.append(("leave", int(nwk), bytes(ieee.serialize())))
-        acc.hit("v14_layout" if V >= 14 else "pre_v14_layout")
+        ctxs = []
+        for V_ in versions:
+            ap_ = await appharness.started_app(loop, V_, acc, "C13")
+            rec_ = []
+            ap_.app.packet_received = lambda pkt, rec_=rec_: rec_.append(("packet", pkt))
+            ap_.app.handle_join = lambda nwk, ieee, parent, *a, rec_=rec_, **k: rec_.append(("join", int(nwk), bytes(ieee.serialize()), int(parent)))
+            ap_.app.handle_leave = lambda nwk, ieee, *a, rec_=rec_, **k: rec_.append(("leave", int(nwk), bytes(ieee.serialize())))
+            acc.hit("v14_layout" if V_ >= 14 else "pre_v14_layout")
+            ctxs.append((V_, ap_.app, ap_.ncp, int(ap_.app.state.node_info.nwk), rec_))
         types_seen = set()
         seq = 200
-
-        def inject(frame):
-            rec.clear()
-            try:
-                app._ezsp.frame_received(frame) if hasattr(app, "_ezsp") else ncp.deliver(frame)
-            except BaseException as ex:  # noqa: BLE001
-                return ex
-            return None
 
         n = desc["n"]
         n_in = 0
         for i in range(n):
             acc.case()
+            V, app, ncp, own_nwk, rec = ctxs[(i // 4 if len(ctxs) > 1 and (i // 64) % 2 else i) % len(ctxs)]
+
+            def inject(frame):
+                rec.clear()
+                try:
+                    app._ezsp.frame_received(frame) if hasattr(app, "_ezsp") else ncp.deliver(frame)
+                except BaseException as ex:  # noqa: BLE001
+                    return ex
+                return None
+
             if i % 4 != 3:
                 mt = n_in % 256 if n_in < 256 * 2 else rnd.choice([0, 0, 2, 2, 4, 4, 1, 3, 5, 6, rnd.randrange(256)])
                 n_in += 1
@@ -107,7 +120,7 @@ def run_shard(desc) -> Acc:
                          binding=rnd.randrange(256), address=rnd.randrange(256), payload=rnd.randbytes(plen),
                          eui64=rnd.randbytes(8), timestamp=rnd.getrandbits(32))
                 frame = enc_incoming(V, seq, f)
-                case = {"version": V, "kind": "incoming", "fields": {k: (v.hex() if isinstance(v, bytes) else v) for k, v in f.items()},
+                case = {"version": V, "mix": versions, "kind": "incoming", "fields": {k: (v.hex() if isinstance(v, bytes) else v) for k, v in f.items()},
                         "frame": frame.hex()}
                 ex = inject(frame)
                 types_seen.add(mt)
@@ -166,7 +179,7 @@ def run_shard(desc) -> Acc:
                 f = dict(nwk=rnd.randrange(65536), ieee=rnd.choice([rnd.randbytes(8), bytes([1, 2, 3, 4, 5, 0x8C, 0xCF, 0x04])]),
                          status=st_, decision=dec, parent=rnd.randrange(65536))
                 frame = enc_tcjoin(V, seq, f)
-                case = {"version": V, "kind": "tcjoin", "fields": {k: (v.hex() if isinstance(v, bytes) else v) for k, v in f.items()},
+                case = {"version": V, "mix": versions, "kind": "tcjoin", "fields": {k: (v.hex() if isinstance(v, bytes) else v) for k, v in f.items()},
                         "frame": frame.hex()}
                 ex = inject(frame)
                 if ex is not None:
@@ -213,4 +226,4 @@ def post_merge(reach, tier, events=None):
 
 
 def replay(case) -> Acc:
-    return run_shard({"version": case["version"], "n": 1500, "seed": 0})
+    return run_shard({"versions": case.get("mix") or [case["version"]], "n": 1500, "seed": case.get("seed", 0)})
